@@ -22,7 +22,7 @@ def universe_hash():
 
 
 def plan(tier, seed, complete=False):
-    items, zinfo = PL.plan_docs(tier, seed, complete, quick={"Z1": 1200, "Z3": 700, "Z4": 400, "Z7": 1200}, z1_all=False, limit=LIMIT, zones=("Z1", "Z3", "Z4", "Z7"), force_b=True,
+    items, zinfo = PL.plan_docs(tier, seed, complete, quick={"Z1": 550, "Z3": 350, "Z4": 200, "Z7": 600}, z1_all=False, limit=LIMIT, zones=("Z1", "Z3", "Z4", "Z7"), force_b=True,
                                    ranges={"Z1": [(0, 10194), (20388, 25485)]})
     return {
         "items": items, "zones": zinfo, "exhaustive": False,
